@@ -65,7 +65,11 @@ func (w *world) submit(src, topic string, data []byte, expect string) string {
 			w.d.Probe("diag-accepted-on-undeliverable-topic")
 			continue
 		}
-		inv, sig := "accept-implies-rules", rule+"/"+kind
+		label := rule
+		if rule == "slot-window" && p != nil && p.slot() >= 1<<60 {
+			label = "slot-window-overflow" // slot so large that slot x 12 s wraps around: a different root cause
+		}
+		inv, sig := "accept-implies-rules", label+"/"+kind
 		if expect == rule || expect == "*" {
 			inv, sig = "mutation-not-accepted", "mut-"+sig
 		}
